@@ -199,6 +199,11 @@ Proof.
   reflexivity.
 Qed.
 
+Lemma NewSortedOrdered_spec values :
+  NewSortedOrdered zero sort_Stable less values = NewSorted zero sort_Stable values less /\
+  NewSortedOrdered zero sort_Stable less values = Ok (MkSorted (isort less values) (Some less)).
+Proof. split; [reflexivity|]. exact (NewSorted_spec values). Qed.
+
 Lemma NewSorted_inv values s : NewSorted zero sort_Stable values less = Ok s -> inv s.
 Proof.
   rewrite NewSorted_spec. intros [= <-]. split; [reflexivity|]. apply isort_sorted. exact W.
@@ -468,10 +473,6 @@ Implicit Types (s : sorted T) (l : list T).
 
 Let W : StrictWeakOrder less := sto_swo less TO.
 
-(* r is the first position of v in l *)
-Definition first_position l (v : T) (r : nat) : Prop :=
-  nth_error l r = Some v /\ forall k, k < r -> nth_error l k <> Some v.
-
 Lemma partition_point_first l v r : Sorted (le_of less) l -> partition_point (not_less_than less v) l r ->
   (forall k, k < r -> nth_error l k <> Some v) /\ (nth_error l r <> Some v -> ~ In v l).
 Proof.
@@ -580,9 +581,6 @@ Proof.
 Qed.
 
 (* which calls panic: exactly Get and RemoveAt outside [0, Len) *)
-Definition op_in_range s (o : op T) : Prop :=
-  match o with OGet i | ORemoveAt i => (0 <= i < Len s)%Z | _ => True end.
-
 Theorem panics_exactly_out_of_range s o : reachable zero eqb sort_Stable less s ->
   (op_in_range s o -> exists p, step eqb s o = Ok p) /\
   (~ op_in_range s o -> step eqb s o = Panic IndexOutOfRange).
